@@ -22,8 +22,8 @@ PIPES = ['generalized', 'spring', 'positional']
 
 QUICK = [('sep_plane', 36), ('sep_pair', 10), ('limits', 30), ('push', 9),
          ('resting', 9), ('rebound', 8)]
-THOROUGH = [('sep_plane', 900), ('sep_pair', 240), ('limits', 800),
-            ('push', 240), ('resting', 240), ('rebound', 200)]
+THOROUGH = [('sep_plane', 450), ('sep_pair', 120), ('limits', 400),
+            ('push', 100), ('resting', 100), ('rebound', 90)]
 
 
 def _sched(tier):
